@@ -424,6 +424,86 @@ MonC15(S) ==
          ELSE {Z("C15.mismatch-rejected", S, "transactions delivered although the table map's column count disagrees with the mapper's table", Len(ds), Scen(S).rejectAfter)}))
 
 (***************************************************************************)
+(* DRIFT.conn: implementation-level conformance of the concurrency model.  *)
+(* For attempts recorded with hook tracing, the sequence of hook points of *)
+(* each goroutine must be a path of the control structure MC_Conn gives    *)
+(* that goroutine (its pc values), and the cross-goroutine causality the   *)
+(* model relies on must hold in the recorded order.  A failure does NOT    *)
+(* decide a property: it says the model no longer describes the code       *)
+(* (reported as MODEL-DRIFT by the driver).                                *)
+(***************************************************************************)
+\* reader goroutine: MC_Conn's rpc
+RNext(pc, h) ==
+  CASE pc = "read"     /\ h = "reader.read"        -> {"read"}
+    [] pc = "read"     /\ h = "reader.handoff"     -> {"handoff"}
+    [] pc = "read"     /\ h = "reader.readError"   -> {"pub"}
+    [] pc = "handoff"  /\ h = "reader.handedOff"   -> {"read"}
+    [] pc = "handoff"  /\ h = "reader.sawCtx"      -> {"pub"}
+    [] pc = "handoff"  /\ h = "reader.sawDone"     -> {"closeErr"}
+    [] pc = "pub"      /\ h = "reader.published"   -> {"closeErr"}
+    [] pc = "closeErr" /\ h = "reader.closeEvents" -> {"closeEv"}
+    [] pc = "closeEv"  /\ h = "reader.exit"        -> {"exit"}
+    [] OTHER -> {}
+\* caller goroutine: MC_Conn's spc (connect/set/dump are one stage here: they have no hook of their own)
+SNext(pc, h) ==
+  CASE pc = "idle"    /\ h = "stream.call"       -> {"connect"}
+    [] pc = "connect" /\ h = "stream.spawned"    -> {"select"}
+    [] pc = "connect" /\ h = "close.begin"       -> {"closed"}          \* SET / dump request failed: connection closed, error returned
+    [] pc = "select"  /\ h = "parser.select"     -> {"select"}
+    [] pc = "select"  /\ h = "parser.gotEvent"   -> {"select"}
+    [] pc = "select"  /\ h = "parser.handlerCall" -> {"handler"}
+    [] pc = "handler" /\ h = "parser.handlerOk"  -> {"select"}
+    [] pc = "handler" /\ h = "parser.handlerErr" -> {"closing"}
+    [] pc = "select"  /\ h = "parser.sawClosed"  -> {"closing"}
+    [] pc = "select"  /\ h = "parser.sawCtx"     -> {"closing"}
+    [] pc = "select"  /\ h = "stream.parsed"     -> {"closing"}         \* parseEvents returned an error of its own (decode / lookup)
+    [] pc = "closing" /\ h = "stream.parsed"     -> {"closing"}
+    [] pc = "closing" /\ h = "close.begin"       -> {"closed"}
+    [] pc = "closed"  /\ h = "close.end"         -> {"idle"}
+    [] OTHER -> {}
+
+RECURSIVE RunAuto(_, _, _, _)
+\* set of states reachable by the hook sequence hs from the set of states ps under Nx; {} = the sequence is not a path
+RunAuto(Nx(_, _), hs, ps, i) ==
+  IF i > Len(hs) \/ ps = {} THEN ps ELSE RunAuto(Nx, hs, UNION {Nx(p, hs[i]) : p \in ps}, i + 1)
+
+ReaderHooks == {"reader.read", "reader.handoff", "reader.readError", "reader.handedOff", "reader.sawCtx", "reader.sawDone",
+                "reader.published", "reader.closeEvents", "reader.exit"}
+
+MonDrift(S) ==
+  UNION {
+    LET lines == SubSeq(Trace, S.from, S.to)
+        hooks == SelectSeq(lines, LAMBDA x : x.ev = "hook" /\ x.att = a)
+        rh    == SelectSeq(hooks, LAMBDA x : x.p \in ReaderHooks)
+        sh    == SelectSeq(hooks, LAMBDA x : x.p \notin ReaderHooks)
+        names(q) == [i \in 1..Len(q) |-> q[i].p]
+        \* positions (in the scenario slice) of the attempt's lines of interest
+        pos(P(_)) == {i \in 1..Len(lines) : P(lines[i])}
+        isH(x, n) == x.ev = "hook" /\ x.att = a /\ x.p = n
+        firstOf(n) == IF pos(LAMBDA x : isH(x, n)) = {} THEN 0 ELSE CHOOSE i \in pos(LAMBDA x : isH(x, n)) : \A j \in pos(LAMBDA x : isH(x, n)) : i <= j
+        cancelPos == pos(LAMBDA x : x.ev = "cancel" /\ x.att = a)
+        before(n, m) == firstOf(n) = 0 \/ (firstOf(m) # 0 /\ firstOf(m) < firstOf(n))      \* n happened => m happened before it
+        nGot == Cardinality(pos(LAMBDA x : isH(x, "parser.gotEvent")))
+        nOff == Cardinality(pos(LAMBDA x : isH(x, "reader.handoff")))
+        nDone == Cardinality(pos(LAMBDA x : isH(x, "reader.handedOff")))
+        D(w) == F("DRIFT.conn", S, [what |-> w, got |-> a, want |-> 0, k |-> 0, c |-> 0, typ |-> 0])
+    IN IF ~Plan(S, a).hookTrace \/ Len(hooks) = 0 THEN {}
+       ELSE
+        (IF RunAuto(RNext, names(rh), {"read"}, 1) # {} \/ Len(rh) = 0 THEN {} ELSE {D("the reader goroutine's hook sequence is not a path of MC_Conn's reader")}) \cup
+        (IF RunAuto(SNext, names(sh), {"idle"}, 1) # {} THEN {} ELSE {D("the caller goroutine's hook sequence is not a path of MC_Conn's caller")}) \cup
+        (IF Cardinality({rh[i].g : i \in 1..Len(rh)}) <= 1 /\ Cardinality({sh[i].g : i \in 1..Len(sh)}) <= 1
+            /\ {rh[i].g : i \in 1..Len(rh)} \cap {sh[i].g : i \in 1..Len(sh)} = {}
+         THEN {} ELSE {D("hook points are not on exactly one reader goroutine and one caller goroutine")}) \cup
+        (IF before("reader.sawDone", "close.begin") THEN {} ELSE {D("reader saw the done channel closed before close() began")}) \cup
+        (IF before("parser.sawClosed", "reader.closeEvents") THEN {} ELSE {D("parser saw the event channel closed before the reader closed it")}) \cup
+        (IF (firstOf("reader.sawCtx") = 0 /\ firstOf("parser.sawCtx") = 0) \/
+            (cancelPos # {} /\ \A n \in {"reader.sawCtx", "parser.sawCtx"} : firstOf(n) = 0 \/ \E c \in cancelPos : c < firstOf(n))
+         THEN {} ELSE {D("a goroutine saw the context done before it was cancelled")}) \cup
+        (IF nGot <= nOff /\ nDone <= nGot + 1 /\ nGot <= nDone + 1 THEN {} ELSE {D("events taken by the parser do not match events handed off by the reader")})
+    : a \in 0..(NAttempts(S) - 1)}
+
+
+(***************************************************************************)
 (* Dispatch and the replay state machine.                                  *)
 (***************************************************************************)
 \* end-to-end halves of the value properties: the delivered cells of the property's column kinds match the oracle
@@ -438,7 +518,7 @@ Mon(p, S) ==
     [] p = "C07" -> MonC07(S)
     [] p = "C17" -> MonC17(S)
     [] p = "C15" -> MonC15(S)
-    [] p = "C05" -> MonC05(S)
+    [] p = "C05" -> MonC05(S) \cup MonDrift(S)
     [] p = "C06" -> MonC06(S)
     [] p = "C08" -> MonC08(S)
 
